@@ -421,7 +421,13 @@ def m_enumerate(vm, s, args, kw):
     if type(x) is VList and not x.is_plain():
         if start != 0:
             raise Unsupported("enumerate(start) on guarded list")
-        seq = [(p, (SlotRef(x, j), v)) for j, (p, v) in enumerate(x.slots) if p is not FALSE]
+        seq = []
+        before = []
+        for j, (p, v) in enumerate(x.slots):
+            if p is FALSE:
+                continue
+            seq.append((p, (SlotRef(x, j, tuple(before)), v)))
+            before.append(p)
         return VIter(seq, 0, x)
     if _has_gen(x):
         return _pending(vm.do_call(s, prelude.p_enumerate, [x, start], {}, ("push",)))
